@@ -115,6 +115,34 @@ def gen_crowded(rnd):
     return {'nodes': nodes, 'edges': edges, 'flags': 3 | (8 if rnd.random() < 0.2 else 0) | (32 if rnd.random() < 0.5 else 0), 'cons': cons, 'groups': [], 'clusters': []}
 
 
+def gen_redundant(rnd):
+    """no overlap avoidance; separations, equalities and small alignments over few nodes, with the redundancy a user's constraint list
+    typically has: the same pair constrained twice (an alignment with offsets plus a separation of exactly that gap, an equality plus an
+    inequality), chains through a third node; mostly satisfiable; makeFeasible() alone half of the time"""
+    n = rnd.randint(2, 5)
+    nodes = [(2 * rnd.randint(2, 8), 2 * rnd.randint(2, 8), rnd.randint(0, 120), rnd.randint(0, 120)) for _ in range(n)]
+    edges = sorted({(min(a, b), max(a, b)) for a, b in (rnd.sample(range(n), 2) for _ in range(rnd.randint(0, n)))})
+    cons = []
+    dim = rnd.randint(0, 1)
+    for _ in range(rnd.randint(1, 2)):
+        a, b = rnd.sample(range(n), 2)
+        g = rnd.choice([0, 10, 10, 20, 35])
+        twin = rnd.choice([0, 0, 0, 1, 2, 2, 3])
+        if twin == 0:
+            cons += [[1, dim, a, b, g, 0], [2, dim, 2, a, 0, b, g, 0, 0]]
+        elif twin == 1:
+            cons += [[1, dim, a, b, g, 0], [1, dim, a, b, g, 1]]
+        elif twin == 2:
+            cons += [[2, dim, 2, a, 0, b, g, 0, 0], [1, dim, a, b, g - rnd.choice([0, 5]), 0]]
+        else:
+            cons += [[1, dim, a, b, g, 0], [1, dim, b, a, -g, 0]]
+    for _ in range(rnd.randint(1, 4)):
+        l, r = rnd.sample(range(n), 2)
+        cons.append([1, dim if rnd.random() < 0.8 else 1 - dim, l, r, rnd.choice([0, 10, 10, 25]), 0])
+    rnd.shuffle(cons)
+    return {'nodes': nodes, 'edges': edges, 'flags': 2 | (8 if rnd.random() < 0.2 else 0) | (32 if rnd.random() < 0.6 else 0), 'cons': cons, 'groups': [], 'clusters': []}
+
+
 def write_cases(path, cases):
     with open(path, 'w') as f:
         for c in cases:
